@@ -349,6 +349,52 @@ def ev_keep_parts_drop_wholes(p, keep):
     return [out, changed, handed_out_twice]
 
 
+BUF_DEEP32 = refcodec.enc_header_frame(
+    2, {'headers': A.deep_table(31), 'app_id': 'deep'}, 4)[0]
+BUF_QD_DEEP32 = refcodec.enc_method_frame(
+    M['Queue.Declare'], (0, 'deep', False, False, False, False, False,
+                         {'d': A.deep(31, 'alt')}), 2)[0]
+
+
+def _stack_depth():
+    import sys
+    f, n = sys._getframe(), 0
+    while f is not None:
+        f, n = f.f_back, n + 1
+    return n
+
+
+def ev_decode_deep_in_the_stack(p, keep):
+    """A decode called from deep inside the application's call stack (a
+    recursive consumer, a framework with many layers): 40 frames of head
+    room are left, far more than these frames need. What the library works
+    out on such an occasion must not be what it goes by ever after."""
+    import sys
+    room = sys.getrecursionlimit() - _stack_depth() - 40
+
+    def down(n):
+        if n <= 0:
+            return [decode(p, BUF_QD_FLAT)[1], decode(p, BUF_HDR_FLAT)[1]]
+        return down(n - 1)
+    try:
+        return down(max(0, room))
+    except RecursionError:
+        return 'RecursionError'
+
+
+def ev_decode_under_low_recursion_limit(p, keep):
+    """... and the same with the interpreter's limit lowered for the call."""
+    import sys
+    old = sys.getrecursionlimit()
+    sys.setrecursionlimit(_stack_depth() + 40)
+    try:
+        return [decode(p, BUF_QD_FLAT)[1], decode(p, BUF_HDR_FLAT)[1]]
+    except RecursionError:
+        return 'RecursionError'
+    finally:
+        sys.setrecursionlimit(old)
+
+
 def ev_repeat_decode_mutate(p, keep):
     """The same header and method buffers decoded 130 times; after each
     decode the result is mutated in place: no later decode and no earlier
@@ -751,6 +797,11 @@ EVENTS = [
     ('decode 130 times, mutating each result', ev_repeat_decode_mutate),
     ('keep parts of decoded frames, drop the frames, decode on',
      ev_keep_parts_drop_wholes),
+    ('decode from deep inside the call stack', ev_decode_deep_in_the_stack),
+    ('decode under a lowered recursion limit',
+     ev_decode_under_low_recursion_limit),
+    ('unmarshal tables nested 32 deep', lambda p, keep: [
+        decode(p, BUF_DEEP32)[1], decode(p, BUF_QD_DEEP32)[1]]),
 ]
 TOGGLES = {'toggle ()': True, 'toggle (True)': True, 'toggle (False)': False}
 
